@@ -17,6 +17,8 @@ EXPLAIN = "explain"
 AXIOM_ALLOW = []
 SHARD = 750
 SEARCH_MAX = 1500
+# besides the anchored segtree.rs / segtree_items.rs: MinMax::{MIN, MAX} and ZeroOne::ONE of the element types come from here
+SOURCES = ["rlib/num_traits/src/lib.rs"]
 THEOREMS = [
     ('c01_rep_length',
      'forall (T M V : Type) (obs : T -> V) (vmerge : V -> V -> V) (act : M -> V -> V) (Pending : T -> list M -> Prop) (x : T) (s : shape T) (vl vr : nat) (vs : list V), Rep obs vmerge act Pending x s vl vr vs -> length vs = vr - vl + 1 /\\ vl <= vr'),
@@ -68,10 +70,32 @@ THEOREMS = [
      'kit_lawful kit_affine af_pending'),
     ('c01_flip_lawful',
      'kit_lawful kit_flip fl_pending'),
+    ('c01_minkey_lawful',
+     'kit_lawful kit_minkey no_pending'),
+    ('c01_maxkey_lawful',
+     'kit_lawful kit_maxkey no_pending'),
+    ('c01_key_tie_right',
+     'forall a b : Z * Z, fst a = fst b -> kmin_merge a b = b /\\ kmax_merge a b = b'),
+    ('c01_minf_lawful',
+     'kit_lawful kit_minf no_pending'),
+    ('c01_maxf_lawful',
+     'kit_lawful kit_maxf no_pending'),
+    ('c01_minaddkey_lawful',
+     'kit_lawful kit_minaddkey kva_pending'),
+    ('c01_maxaddkey_lawful',
+     'kit_lawful kit_maxaddkey kva_pending'),
+    ('c01_sumcat_lawful',
+     'kit_lawful kit_sumcat no_pending'),
+    ('c01_combcat_lawful',
+     'kit_lawful kit_combcat (comb_pending cc_pending cc_pending)'),
+    ('c01_combunit_lawful',
+     'kit_lawful kit_combunit (comb_pending no_pending (comb_pending no_pending no_pending))'),
+    ('c01_combflip_lawful',
+     'kit_lawful kit_combflip (comb_pending fl_pending no_pending)'),
     ('c01_model_check_spec_check',
      'forall c : C01.Corr.case, C01.Corr.model_check c = true -> C01.Corr.spec_check c = true'),
 ]
-RULE = ("histories on 11 item types (Min, Max, Sum, MinAdd, MaxAdd, SumAdd over i64, Combinator<MinAdd,MaxAdd>, "
+RULE = ("histories on 21 item types; the first 11 (Min, Max, Sum, MinAdd, MaxAdd, SumAdd over i64, Combinator<MinAdd,MaxAdd>, "
         "Combinator<Combinator<MinAdd,MaxAdd>,SumAdd>, a user Concat item with non-commutative merge and Assign|Append "
         "modifiers, a user affine-tag item mod 998244353, a user bit-flip item whose modifier type is the zero-sized () "
         "although it is lazy): sizes 1-40 (mostly <= 17 and 15,16,17,31,32,33), 1-60 operations, "
@@ -84,23 +108,84 @@ RULE = ("histories on 11 item types (Min, Max, Sum, MinAdd, MaxAdd, SumAdd over 
         "MaxAdd / SumAdd { md != 0 }, componentwise in the Combinators, Flip { flip: true }), in particular as the fill value "
         "of new and as the first element of a slice, then single-element and range queries, debug(), searches, "
         "modifications, and trees rebuilt from the items another tree returned (for (b) non-trivial also = a query after "
-        "such a construction)")
-TRUSTED = ["executor harness/crates/c01 (drives rlib_segtree::Segtree with the listed item types, defines the three user items, "
-           "prints every returned item with all its fields, the debug() string and the arguments each search closure received)",
+        "such a construction); "
+        "(c) 10 more item types where the choice and the order of operands is observable - Min / Max / MinAdd / MaxAdd over an "
+        "element type Keyed {key, id} ordered by key only (ties keep the right operand; ids tell tied elements apart), Min / Max "
+        "over f64 on the two zeros and small integral values (observed through to_bits), Sum over strings with + = "
+        "concatenation, Combinator<Concat, Concat>, the right-nested Combinator<Min, Combinator<Max, Sum>> built with From, "
+        "Combinator<Flip, Sum> - in general histories and in a ties family (2-3 distinct keys, sizes 2-33, sets with fresh ids, "
+        "range adds of +-1 that create and destroy ties, queries on node ranges, searches, debug()); (d) boundary inputs of the "
+        "old kinds: Min / Max elements at i64::MIN / MAX (their Default values), MinAdd / MaxAdd / comb2 elements at and next "
+        "to i64::MAX with modifiers <= 0 or at i64::MIN with modifiers >= 0 (no overflow), SumAdd leaves with len 0, 2, 3, 5 "
+        "(also in comb3), MinAdd<i32>, SumAdd<u64> and - through the order isomorphism x -> x + 2^63, which maps the Default "
+        "values onto each other - Min<u64> / Max<u64> instantiations checked against the same model, Min / Max / Sum built through "
+        "From half of the time, from_iter fed a Vec iterator, a lazy map adaptor or a rev() by length mod 3; (e) entry points "
+        "and preconditions: Segtree::new_raw for the idempotent kinds (same model op as new), from_slice(&[]), "
+        "from_iter(empty), new_raw(0), modify and ask with l > r (also beyond n); (f) large trees n in {63..65, 127..129, "
+        "255..257, 1000, 1024, 1025, 4097} with 6-10 operations (4 cases in the quick tier, 52 in the thorough tier); (g) "
+        "searches whose predicate first panics on its 1st-6th call (caught) and are then repeated: the repeated search and the "
+        "queries after it must not notice; executor self-checks that make the observation unreadable when they fail: after "
+        "every debug() each range is asked again and compared with the left fold of merge over the single-element answers "
+        "(stored inner nodes = query-time merges, for any element type), Concat::push verifies that its two arguments are its "
+        "left and right child in this order, Concat overrides update")
+TRUSTED = ["executor harness/crates/c01 (drives rlib_segtree::Segtree with the listed item types, defines the three user items "
+           "and the element types Keyed and Cat, "
+           "prints every returned item with all its fields, the debug() string and the arguments each search closure received; "
+           "its self-checks only ever turn an observation into an unreadable one)",
            "checks/c01.py (history generator, Coq term printer, parser of the derived-Debug rendering: the rendering is "
            "re-generated from the parsed numbers and compared with the string the implementation produced)"]
-ASSUMPTIONS = ["i64 values are modelled as unbounded Z: generated values keep every intermediate below 2^40",
+ASSUMPTIONS = ["i64 values are modelled as unbounded Z: generated values keep every intermediate below 2^40, or sit next to one end "
+               "of i64 with all modifiers pointing away from it (Min / Max, which do no arithmetic, see both ends); MinAdd<i32> and "
+               "SumAdd<u64> are compared with the same Z model on small values, Min<u64> / Max<u64> on values shifted by 2^63",
+               "f64 elements are the two zeros and integral values below 2^50, modelled as (value, sign bit of a zero); NaN and "
+               "infinities are not generated",
+               "a search interrupted by a panicking predicate is not modelled itself: the executor repeats it, and the model "
+               "(pushes are idempotent, searches leave the array alone) predicts the repeated search and everything after it",
                "the model branches on the shape (leaf / inner node) where the code tests vl == vr; both are built over the same ranges",
                "lower_bound(l, _) with l >= n (out-of-bounds indexing inside the code, not asserted) is outside the model and never generated"]
 
 PM = 998244353
+I64_MAX, I64_MIN = 2 ** 63 - 1, -2 ** 63
 KINDS = ["min", "max", "sum", "minadd", "maxadd", "sumadd", "comb2", "comb3", "concat", "affine", "flip"]
+# element types / combinations where the choice and the order of operands is observable
+KEYED_KINDS = ("minkey", "maxkey", "minaddkey", "maxaddkey", "minf", "maxf")   # item values are strings "key/id"
+F64_KINDS = ("minf", "maxf")
+STR_KINDS = ("concat", "sumcat", "combcat")                                     # item values are strings
+NEW_KINDS = ["minkey", "maxkey", "minaddkey", "maxaddkey", "minf", "maxf", "sumcat", "combcat", "combunit", "combflip"]
 CTOR = {"min": "CMin", "max": "CMax", "sum": "CSum", "minadd": "CMinAdd", "maxadd": "CMaxAdd", "sumadd": "CSumAdd",
-        "comb2": "CComb2", "comb3": "CComb3", "concat": "CConcat", "affine": "CAffine", "flip": "CFlip"}
-ARITY = {"min": 1, "max": 1, "sum": 1, "minadd": 2, "maxadd": 2, "sumadd": 3, "comb2": 4, "comb3": 7, "affine": 4, "flip": 3}
-UNIT_KINDS = ("min", "max", "sum")          # M = () and really non-lazy
-UNIT_MOD_KINDS = UNIT_KINDS + ("flip",)     # M = (): the modifier is the unit value (Flip is lazy all the same)
-MD_KINDS = ("minadd", "maxadd", "sumadd", "comb2", "comb3", "flip")   # input items may carry a lazy tag: value [v, md]
+        "comb2": "CComb2", "comb3": "CComb3", "concat": "CConcat", "affine": "CAffine", "flip": "CFlip",
+        "minkey": "CMinKey", "maxkey": "CMaxKey", "minaddkey": "CMinAddKey", "maxaddkey": "CMaxAddKey",
+        "minf": "CMinF", "maxf": "CMaxF", "sumcat": "CSumCat", "combcat": "CCombCat", "combunit": "CCombUnit",
+        "combflip": "CCombFlip"}
+ARITY = {"min": 1, "max": 1, "sum": 1, "minadd": 2, "maxadd": 2, "sumadd": 3, "comb2": 4, "comb3": 7, "affine": 4, "flip": 3,
+         "minkey": 2, "maxkey": 2, "minf": 2, "maxf": 2, "minaddkey": 4, "maxaddkey": 4, "combunit": 3, "combflip": 4}
+UNIT_KINDS = ("min", "max", "sum", "minkey", "maxkey", "minf", "maxf", "sumcat", "combunit")   # M = () and really non-lazy
+UNIT_MOD_KINDS = UNIT_KINDS + ("flip", "combflip")   # M = (): the modifier is the unit value (Flip is lazy all the same)
+# input items may carry a lazy tag: value [v, md] (sumadd / comb3 also [v, md, len]: a weighted leaf)
+MD_KINDS = ("minadd", "maxadd", "sumadd", "comb2", "comb3", "flip", "minaddkey", "maxaddkey", "combflip")
+LEN_KINDS = ("sumadd", "comb3")
+IDEMPOTENT_KINDS = ("min", "max", "minkey", "maxkey", "minf", "maxf")   # merge(v, v) = v: new_raw(n, v) is new(n, v)
+# the same model kind run on another instantiation of the executor (case key "exe")
+EXE_OF = {"minadd32": "minadd", "sumaddu64": "sumadd", "minu64": "min", "maxu64": "max"}
+# Min<u64> / Max<u64>: the executor maps the i64 input x to the u64 x + 2^63 (order isomorphism; u64::MAX <-> i64::MAX,
+# 0 <-> i64::MIN: the Default values correspond) and prints items back the same way; debug() shows the raw u64
+SHIFTED_EXE = {"minu64": 2 ** 63, "maxu64": 2 ** 63}
+
+
+class BadObs(Exception):
+    """the executor printed something that cannot be the expected kind of observation (a self-check failed)"""
+
+
+def key_of(v):
+    return int(v.split("/")[0])
+
+
+def id_of(v):
+    return int(v.split("/")[1])
+
+
+def rot(s):
+    return s.translate({97: 98, 98: 99, 99: 97})
 
 
 # ----------------------------------------------------------------------------- printing
@@ -122,7 +207,7 @@ def tok_str(s):
 
 def item_from_fields(kind, f):
     """Coq term of a full item from the flat list of its integer fields"""
-    if kind in UNIT_KINDS:
+    if kind in ("min", "max", "sum"):
         return z(f[0])
     if kind in ("minadd", "maxadd"):
         return "(VA %s %s)" % (z(f[0]), z(f[1]))
@@ -138,16 +223,29 @@ def item_from_fields(kind, f):
         if f[2] not in (0, 1):
             raise ValueError("bad flip flag %r" % (f,))
         return "(FL %s %s %s)" % (z(f[0]), z(f[1]), "true" if f[2] else "false")
+    if kind in ("minkey", "maxkey", "minf", "maxf"):
+        return "(%s, %s)" % (z(f[0]), z(f[1]))
+    if kind in ("minaddkey", "maxaddkey"):
+        return "(KVA (%s, %s) (%s, %s))" % tuple(z(x) for x in f)
+    if kind == "combunit":
+        return "(%s, (%s, %s))" % tuple(z(x) for x in f)
+    if kind == "combflip":
+        return "(%s, %s)" % (item_from_fields("flip", f[0:3]), z(f[3]))
     raise ValueError(kind)
 
 
 def v_md(kind, v):
     """an input item value is v, or [v, md] (MD_KINDS only): the item carries the pending lazy tag md"""
     if isinstance(v, list):
-        if kind not in MD_KINDS or len(v) != 2:
+        if kind not in MD_KINDS or len(v) != (3 if len(v) == 3 and kind in LEN_KINDS else 2):
             raise ValueError("bad item value %r for %s" % (v, kind))
         return v[0], v[1]
     return v, 0
+
+
+def len_of(v):
+    """len field of a SumAdd leaf: 1 (SumAdd::new) unless the item is the weighted [v, md, len]"""
+    return v[2] if isinstance(v, list) and len(v) == 3 else 1
 
 
 def val_of(v):
@@ -158,24 +256,37 @@ def input_fields(kind, v):
     """fields of the item the executor builds from the input token v (v:md for a tagged item)"""
     if kind == "affine":
         return [v % PM, 1, 1, 0]
+    ln = len_of(v)
     v, md = v_md(kind, v)
-    return {"min": [v], "max": [v], "sum": [v], "minadd": [v, md], "maxadd": [v, md], "sumadd": [v, 1, md],
-            "comb2": [v, md, v, md], "comb3": [v, md, v, md, v, 1, md], "flip": [v, 1, md]}[kind]
+    if kind in KEYED_KINDS:
+        k, i = key_of(v), id_of(v)
+        if kind in F64_KINDS and (i not in (0, 1) or (i == 1 and k != 0)):
+            raise ValueError("bad f64 item %r" % (v,))
+        return [k, i, md, 0] if kind in ("minaddkey", "maxaddkey") else [k, i]
+    return {"min": [v], "max": [v], "sum": [v], "minadd": [v, md], "maxadd": [v, md], "sumadd": [v, ln, md],
+            "comb2": [v, md, v, md], "comb3": [v, md, v, md, v, ln, md], "flip": [v, 1, md],
+            "combunit": [v, v, v], "combflip": [v, 1, md, v]}[kind]
 
 
 def coq_item_in(kind, v):
     if kind == "concat":
         return "(CC [%s] None)" % coq_str(v)
+    if kind == "sumcat":
+        return coq_str(v)
+    if kind == "combcat":
+        return "(CC [%s] None, CC [%s] None)" % (coq_str(v), coq_str(rot(v)))
     return item_from_fields(kind, input_fields(kind, v))
 
 
 def coq_mod(kind, m):
     if kind in UNIT_MOD_KINDS:
         return "tt"
-    if kind == "concat":
+    if kind in ("concat", "combcat"):
         return "(%s %s)" % ("CAssign" if m[0] == "as" else "CAppend", coq_str(m[1]))
     if kind == "affine":
         return "(%s, %s)" % (z(m[0]), z(m[1]))
+    if kind in ("minaddkey", "maxaddkey"):
+        return "(%s, 0)" % z(m)
     return z(m)
 
 
@@ -235,17 +346,20 @@ def coq_op(kind, o):
 
 
 def tok_item(kind, v):
-    if kind == "concat":
+    if kind in STR_KINDS:
         return tok_str(v)
     if isinstance(v, list):
-        return "%d:%d" % v_md(kind, v)
+        if len(v) == 3:
+            v_md(kind, v)
+            return "%d:%d:%d" % tuple(v)
+        return "%s:%d" % v_md(kind, v)
     return str(v)
 
 
 def tok_mod(kind, m):
     if kind in UNIT_MOD_KINDS:
         return "0"
-    if kind == "concat":
+    if kind in ("concat", "combcat"):
         return "%s %s" % (m[0], tok_str(m[1]))
     if kind == "affine":
         return "%d %d" % (m[0], m[1])
@@ -255,7 +369,8 @@ def tok_mod(kind, m):
 def tok_op(kind, o):
     t = o["op"]
     if t == "new":
-        return "new %d %s" % (o["n"], tok_item(kind, o["v"]))
+        # "raw": Segtree::new_raw instead of Segtree::new (generated for idempotent merges only: same model op)
+        return "%s %d %s" % ("raw" if o.get("raw") else "new", o["n"], tok_item(kind, o["v"]))
     if t in ("slice", "iter"):
         return "%s %d %s" % (t, len(o["xs"]), " ".join(tok_item(kind, v) for v in o["xs"]))
     if t == "set":
@@ -265,14 +380,22 @@ def tok_op(kind, o):
     if t == "ask":
         return "ask %d %d" % (o["l"], o["r"])
     if t == "lb":
+        # "panic" k: the search is first run with a predicate that panics on its k-th call, then again, plainly
+        if o.get("panic"):
+            return "lbp %d %d %s" % (o["l"], o["panic"], tok_pred(o["p"]))
         return "lb %d %s" % (o["l"], tok_pred(o["p"]))
     if t == "lbr":
+        if o.get("panic"):
+            return "lbrp %d %d %s" % (o["r"], o["panic"], tok_pred(o["p"]))
         return "lbr %d %s" % (o["r"], tok_pred(o["p"]))
     return "dbg"
 
 
 def harness_line(c):
-    return " ".join([c["kind"]] + [tok_op(c["kind"], o) for o in c["ops"]])
+    exe = c.get("exe", c["kind"])
+    if exe != c["kind"] and EXE_OF.get(exe) != c["kind"]:
+        raise ValueError("bad executor kind %r for %s" % (exe, c["kind"]))
+    return " ".join([exe] + [tok_op(c["kind"], o) for o in c["ops"]])
 
 
 # ----------------------------------------------------------------------------- parsing the executor's output
@@ -293,15 +416,26 @@ def parse_enc(kind, s):
         tag = m.group(3)
         tagt = "None" if tag == "N" else "(Some (%s %s))" % ("CAssign" if tag[0] == "A" else "CAppend", coq_str(untok(tag[1:])))
         return "(CC [%s] %s)" % ("; ".join(coq_str(p) for p in parts), tagt)
+    if kind == "sumcat":
+        if not re.fullmatch(r"[a-z_]+", s):
+            raise ValueError("bad string item %r" % s)
+        return coq_str(untok(s))
+    if kind == "combcat":
+        a, _, b = s.partition(",")
+        return "(%s, %s)" % (parse_enc("concat", a), parse_enc("concat", b))
+    if kind in F64_KINDS and s == "X":
+        raise BadObs("a value that is neither integral nor a zero")
     f = [int(x) for x in s.split(",")]
     if len(f) != ARITY[kind]:
         raise ValueError("bad item %r for %s" % (s, kind))
+    if kind in F64_KINDS and (f[1] not in (0, 1) or (f[1] == 1 and f[0] != 0)):
+        raise BadObs("bad f64 encoding %r" % s)
     return item_from_fields(kind, f)
 
 
 def render_debug(kind, f):
     """Rust's derived Debug rendering of one built-in item with integer fields f"""
-    if kind in UNIT_KINDS:
+    if kind in ("min", "max", "sum"):
         return "%s { v: %d }" % ({"min": "Min", "max": "Max", "sum": "Sum"}[kind], f[0])
     if kind in ("minadd", "maxadd"):
         return "%s { v: %d, md: %d }" % ("MinAdd" if kind == "minadd" else "MaxAdd", f[0], f[1])
@@ -311,11 +445,21 @@ def render_debug(kind, f):
         return "Combinator(%s, %s)" % (render_debug("minadd", f[0:2]), render_debug("maxadd", f[2:4]))
     if kind == "comb3":
         return "Combinator(%s, %s)" % (render_debug("comb2", f[0:4]), render_debug("sumadd", f[4:7]))
+    if kind in ("minkey", "maxkey"):
+        return "%s { v: Keyed { key: %d, id: %d } }" % ("Min" if kind == "minkey" else "Max", f[0], f[1])
+    if kind in ("minaddkey", "maxaddkey"):
+        return "%s { v: Keyed { key: %d, id: %d }, md: Keyed { key: %d, id: %d } }" % (
+            ("MinAdd" if kind == "minaddkey" else "MaxAdd",) + tuple(f))
+    if kind == "combunit":
+        return "Combinator(Min { v: %d }, Combinator(Max { v: %d }, Sum { v: %d }))" % tuple(f)
+    if kind == "combflip":
+        return "Combinator(%d,%d,%d, Sum { v: %d })" % tuple(f)
     raise ValueError(kind)
 
 
-def parse_debug(kind, s):
-    """debug() string -> list of Coq item terms; None if the rendering is not the expected one"""
+def parse_debug(kind, s, shift=0):
+    """debug() string -> list of Coq item terms; None if the rendering is not the expected one
+    (shift: the executor's element values are the model's plus shift, see SHIFTED_EXE)"""
     if not (s.startswith("[") and s.endswith("]")):
         return None
     if kind in ("concat", "affine", "flip"):     # their Debug impl (in the executor) prints the item encoding
@@ -324,6 +468,31 @@ def parse_debug(kind, s):
             return [parse_enc(kind, e) for e in body.split(", ")] if body else []
         except ValueError:
             return None
+    if kind == "sumcat":                          # Sum { v: <Cat> }, Cat's Debug (executor) prints the string token
+        strs = re.findall(r"Sum \{ v: ([a-z_]+) \}", s)
+        if "[" + ", ".join("Sum { v: %s }" % e for e in strs) + "]" != s:
+            return None
+        return [coq_str(untok(e)) for e in strs]
+    if kind == "combcat":                         # derived Debug of the tuple struct around Concat's own Debug
+        prs = re.findall(r"Combinator\(([^,() ]+), ([^,() ]+)\)", s)
+        if "[" + ", ".join("Combinator(%s, %s)" % e for e in prs) + "]" != s:
+            return None
+        try:
+            return ["(%s, %s)" % (parse_enc("concat", a), parse_enc("concat", b)) for a, b in prs]
+        except ValueError:
+            return None
+    if kind in F64_KINDS:                         # Min { v: -0.0 } / Min { v: 3.0 }
+        nm = "Min" if kind == "minf" else "Max"
+        vals = re.findall(nm + r" \{ v: (-?\d+)\.0 \}", s)
+        if "[" + ", ".join("%s { v: %s.0 }" % (nm, e) for e in vals) + "]" != s:
+            return None
+        out = []
+        for e in vals:
+            k = int(e)
+            if str(k) != e and e != "-0":
+                return None
+            out.append(item_from_fields(kind, [k, 1 if e == "-0" else 0]))
+        return out
     nums = [int(x) for x in re.findall(r"-?\d+", s)]
     a = ARITY[kind]
     if len(nums) % a:
@@ -331,26 +500,32 @@ def parse_debug(kind, s):
     groups = [nums[i:i + a] for i in range(0, len(nums), a)]
     if "[" + ", ".join(render_debug(kind, g) for g in groups) + "]" != s:
         return None
-    return [item_from_fields(kind, g) for g in groups]
+    return [item_from_fields(kind, [x - shift for x in g]) for g in groups]
 
 
-def coq_out(kind, chunk):
+def coq_out(kind, chunk, shift=0):
     if chunk == "u":
         return "OUnit"
     if chunk == "p":
         return "OPanic"
     tag, _, rest = chunk.partition(" ")
     if tag == "i":
-        return "OItem %s" % parse_enc(kind, rest)
+        try:
+            return "OItem %s" % parse_enc(kind, rest)
+        except BadObs:
+            return "OPanic"
     if tag == "d":
-        items = parse_debug(kind, rest)
+        items = parse_debug(kind, rest, shift)
         if items is None:
             return "OPanic"          # unexpected rendering: cannot agree with the model's OItems
         return "OItems [%s]" % "; ".join(items)
     if tag == "b":
         t = rest.split(" ")
         res = "None" if t[0] == "-" else "(Some %s)" % nat(int(t[0]))
-        return "OBound %s [%s]" % (res, "; ".join(parse_enc(kind, e) for e in t[1:]))
+        try:
+            return "OBound %s [%s]" % (res, "; ".join(parse_enc(kind, e) for e in t[1:]))
+        except BadObs:
+            return "OPanic"
     raise ValueError("bad chunk %r" % chunk)
 
 
@@ -359,7 +534,8 @@ def coq_term(c, obs, profile):
     if obs == "P":
         outs = []
     else:
-        outs = [coq_out(kind, ch) for ch in obs.split("\t")] if obs != "" else []
+        shift = SHIFTED_EXE.get(c.get("exe"), 0)
+        outs = [coq_out(kind, ch, shift) for ch in obs.split("\t")] if obs != "" else []
     return "(%s ([%s], [%s]))" % (CTOR[kind], "; ".join(coq_op(kind, o) for o in c["ops"]), "; ".join(outs))
 
 
@@ -420,13 +596,30 @@ def rand_str(rng, lo, hi):
     return "".join(rng.choice("abc") for _ in range(rng.range(lo, hi)))
 
 
+EXTREMES = [I64_MIN, I64_MIN + 1, I64_MAX - 1, I64_MAX, I64_MIN, I64_MAX, 0, -1, 1]
+
+
 def pick_value(rng, kind, style):
-    if kind == "concat":
+    if kind in STR_KINDS:
         return rand_str(rng, 0, 3)
     if kind == "affine":
         return rng.choice([rng.range(0, 9), rng.range(0, 9), rng.range(0, PM - 1), PM - 1, PM, PM + rng.range(1, 5)])
-    if kind == "flip":
+    if kind in ("flip", "combflip"):
         return rng.below(2)
+    if kind in F64_KINDS:
+        # mostly the two zeros (equal, different bits), a few other integral values
+        k = rng.choice([0, 0, 0, 0, 0, -1, 1, 2, -3])
+        return "%d/%d" % (k, rng.below(2) if k == 0 else 0)
+    if kind in KEYED_KINDS:
+        # few distinct keys: the children of inner nodes tie all the time; the id tells tied elements apart
+        lo, hi = (0, 2) if style == "nonneg" else (-2, 3)
+        return "%d/%d" % (rng.range(lo, hi), rng.range(0, 99))
+    if style == "hi":           # MinAdd / MaxAdd / comb2 next to i64::MAX; every modifier is <= 0, nothing overflows
+        return I64_MAX - rng.choice([0, 0, 0, 1, 1, rng.range(2, 60)])
+    if style == "lo":           # ... next to i64::MIN with modifiers >= 0
+        return I64_MIN + rng.choice([0, 0, 0, 1, 1, rng.range(2, 60)])
+    if style == "extreme":      # Min / Max only (no arithmetic): the ends of i64, Min::default() / Max::default() as elements
+        return rng.choice(EXTREMES)
     if style == "nonneg":
         return rng.range(0, 30)
     return rng.range(-50, 50)
@@ -434,9 +627,13 @@ def pick_value(rng, kind, style):
 
 def pick_md(rng, kind, style):
     """a non-zero lazy tag for an input item"""
-    if kind == "flip":
+    if kind in ("flip", "combflip"):
         return 1
-    if style == "nonneg":
+    if kind in KEYED_KINDS:
+        return rng.choice([-2, -1, 1, 2])
+    if style == "hi":
+        return -rng.range(1, 20)
+    if style in ("nonneg", "lo"):
         return rng.range(1, 20)
     m = rng.range(-20, 20)
     return m if m else 7
@@ -453,8 +650,10 @@ def pick_item(rng, kind, style, tagged):
 def pick_mod(rng, kind, style):
     if kind in UNIT_MOD_KINDS:
         return 0
-    if kind == "concat":
+    if kind in ("concat", "combcat"):
         return [rng.choice(["as", "ap", "ap"]), rand_str(rng, 0, 2)]
+    if kind in KEYED_KINDS:
+        return rng.choice([-1, 1, -1, 1, 0, 2, -2])     # small steps: range adds create and destroy ties
     if kind == "affine":
         k = rng.below(8)
         small = rng.chance(2, 3)
@@ -464,27 +663,58 @@ def pick_mod(rng, kind, style):
         if k < 6:
             return [1, c]                      # add
         return [rng.range(0, 5) if small else rng.range(0, PM - 1), c]
-    if style == "nonneg":
+    if style == "hi":
+        return -rng.range(0, 20)
+    if style in ("nonneg", "lo"):
         return rng.range(0, 20)
     return rng.range(-20, 20)
+
+
+def ident(v):
+    return v
+
+
+# kinds whose observable value is a tuple of simpler ones: (kind of the component, path of the component inside the
+# value as PFst / PSnd, how the component's element is computed from the input value)
+SUBS = {"minkey": [("min", ["fst"], key_of)], "maxkey": [("max", ["fst"], key_of)],
+        "minaddkey": [("minadd", ["fst"], key_of)], "maxaddkey": [("maxadd", ["fst"], key_of)],
+        "minf": [("min", ["fst"], key_of)], "maxf": [("max", ["fst"], key_of)],
+        "combcat": [("concat", ["fst"], ident), ("concat", ["snd"], rot)],
+        "combunit": [("min", ["fst"], ident), ("max", ["snd", "fst"], ident), ("sum", ["snd", "snd"], ident)],
+        "combflip": [("flip", ["fst"], ident), ("sum", ["snd"], ident)]}
 
 
 class Plain:
     """plain array kept by the generator only to aim thresholds at values that actually occur"""
 
     def __init__(self, kind):
-        self.kind, self.a = kind, None
+        self.kind, self.a, self.w = kind, None, None
+        self.subs = [(Plain(k), f) for k, _path, f in SUBS.get(kind, [])]
 
     def elem(self, v):
         return v % PM if self.kind == "affine" else val_of(v)     # a lazy tag carried by a leaf is not part of its value
 
     def construct(self, xs):
+        if self.subs:
+            for sub, f in self.subs:
+                sub.construct([f(val_of(v)) for v in xs])
+            return
         self.a = [self.elem(v) for v in xs]
+        self.w = [len_of(v) for v in xs]
 
     def set(self, i, v):
+        if self.subs:
+            for sub, f in self.subs:
+                sub.set(i, f(val_of(v)))
+            return
         self.a[i] = self.elem(v)
+        self.w[i] = len_of(v)
 
     def mod(self, l, r, m):
+        for sub, _f in self.subs:
+            sub.mod(l, r, m)
+        if self.subs:
+            return
         k = self.kind
         for i in range(l, r + 1):
             if k in UNIT_KINDS:
@@ -495,13 +725,15 @@ class Plain:
                 self.a[i] = m[1] if m[0] == "as" else self.a[i] + m[1]
             elif k == "affine":
                 self.a[i] = (m[0] * self.a[i] + m[1]) % PM
+            elif k in LEN_KINDS:
+                self.a[i] += m * self.w[i]
             else:
                 self.a[i] += m
 
     def agg(self, l, r):
         xs = self.a[l:r + 1]
         k = self.kind
-        if k == "concat":
+        if k in ("concat", "sumcat"):
             return "".join(xs)
         if k == "affine":
             return sum(xs) % PM
@@ -511,6 +743,17 @@ class Plain:
 
 def pick_pred(rng, kind, plain, lo, hi, rev):
     """a predicate for a search over the prefixes [lo..k] (rev: suffixes [k..hi]); mostly monotone ones aimed at a real value"""
+    if kind in SUBS:
+        if kind in KEYED_KINDS and rng.chance(1, 10):
+            return ["snd", [rng.choice(["ge", "le"]), rng.range(0, 99)]]    # looks at the id: hardly ever monotone (model only)
+        j = rng.below(len(plain.subs))
+        subkind, path, _f = SUBS[kind][j]
+        p = pick_pred(rng, subkind, plain.subs[j][0], lo, hi, rev)
+        if p[0] in ("T", "F"):
+            return p
+        for tag in reversed(path):
+            p = [tag, p]
+        return p
     q = rng.below(20)
     if q == 0:
         return ["T"]
@@ -521,9 +764,9 @@ def pick_pred(rng, kind, plain, lo, hi, rev):
     d = rng.choice([0, 0, 0, 1, -1, 2, -3])
     wrong = q == 2            # deliberately the non-monotone direction now and then (exercises the model only)
     if kind in ("min", "minadd"):
-        return ["ge" if wrong else "le", v + d]
+        return ["ge" if wrong else "le", max(I64_MIN, min(I64_MAX, v + d))]
     if kind in ("max", "maxadd"):
-        return ["le" if wrong else "ge", v + d]
+        return ["le" if wrong else "ge", max(I64_MIN, min(I64_MAX, v + d))]
     if kind == "sum":
         return ["le" if wrong else "ge", v + d]
     if kind == "sumadd":
@@ -531,7 +774,8 @@ def pick_pred(rng, kind, plain, lo, hi, rev):
             return ["snd", ["ge", (hi - k + 1 if rev else k - lo + 1) + rng.choice([0, 0, 1])]]
         return ["fst", ["le" if wrong else "ge", v + d]]
     if kind == "comb2":
-        return ["fst", ["le", v[0] + d]] if rng.chance(1, 2) else ["snd", ["ge", v[1] + d]]
+        clamp = lambda x: max(I64_MIN, min(I64_MAX, x))
+        return ["fst", ["le", clamp(v[0] + d)]] if rng.chance(1, 2) else ["snd", ["ge", clamp(v[1] + d)]]
     if kind == "comb3":
         c = rng.below(4)
         if c == 0:
@@ -551,7 +795,7 @@ def pick_pred(rng, kind, plain, lo, hi, rev):
         if wrong:
             return ["fst", ["le", v + d]]
         return ["fst", ["ge", max(1, v + d) if rng.chance(3, 4) else v + d]]
-    if kind == "concat":
+    if kind in ("concat", "sumcat"):
         if rng.chance(1, 3):
             return ["lenge", len(v) + d]
         # "the merged string is not a prefix of w": w = a real aggregate, possibly extended or damaged
@@ -572,24 +816,48 @@ def pick_pred(rng, kind, plain, lo, hi, rev):
     raise ValueError(kind)
 
 
-def gen_history(rng, tier, weights, max_ops):
-    kind = rng.choice(KINDS)
+def gen_history(rng, tier, weights, max_ops, kinds=KINDS, ppanic=12):
+    """ppanic: one search in ppanic is run with a predicate that panics on one of its first calls before the real run"""
+    kind = rng.choice(kinds)
     style = "nonneg" if rng.chance(1, 2) else "any"
+    exe = None
+    if kind in ("min", "max") and rng.chance(1, 6):
+        style = "extreme"                       # i64::MIN / MAX (the Default values) among the elements
+    if kind in ("min", "max") and rng.chance(1, 6):
+        exe = kind + "u64"                      # Min<u64> / Max<u64> (values shifted by 2^63)
+    if kind in ("minadd", "maxadd", "comb2") and rng.chance(1, 7):
+        # elements at and next to i64::MAX (the value of MinAdd::default()) with modifiers <= 0, or at i64::MIN with >= 0
+        style = rng.choice(["hi", "lo"] if kind == "comb2" else ["hi", "hi", "hi", "lo"] if kind == "minadd" else ["lo", "lo", "lo", "hi"])
+    if kind == "minadd" and style in ("any", "nonneg") and rng.chance(1, 8):
+        exe = "minadd32"                        # MinAdd<i32>
+    if kind == "sumadd" and style == "nonneg" and rng.chance(1, 4):
+        exe = "sumaddu64"                       # SumAdd<u64>
     n = pick_n(rng, tier)
     plain = Plain(kind)
     ops = []
     # one history in four on a lazy built-in / Flip kind uses input items that carry a lazy tag of their own
     tagged = rng.choice([0, 0, 0, 35]) if kind in MD_KINDS else 0
+    # one SumAdd history in four has weighted leaves (len 0, 2, 3, 5 besides 1: pub field, coordinate compression)
+    weighted = kind in LEN_KINDS and rng.chance(1, 4)
+
+    def item():
+        v = pick_item(rng, kind, style, tagged)
+        if weighted and rng.chance(2, 3):
+            v = [val_of(v), v[1] if isinstance(v, list) else 0, rng.choice([0, 0, 1, 2, 3, 5])]
+        return v
 
     def construct():
         nonlocal n
         c = rng.below(3)
         if c == 0:
-            v = pick_item(rng, kind, style, tagged)
-            ops.append({"op": "new", "n": n, "v": v})
+            v = item()
+            o = {"op": "new", "n": n, "v": v}
+            if kind in IDEMPOTENT_KINDS and rng.chance(1, 3):
+                o["raw"] = 1                    # Segtree::new_raw: all nodes hold v; for these kinds the same tree as new
+            ops.append(o)
             plain.construct([v] * n)
         else:
-            xs = [pick_item(rng, kind, style, tagged) for _ in range(n)]
+            xs = [item() for _ in range(n)]
             ops.append({"op": "slice" if c == 1 else "iter", "xs": xs})
             plain.construct(xs)
 
@@ -610,7 +878,7 @@ def gen_history(rng, tier, weights, max_ops):
             continue
         if q < 8:
             # violates an asserted precondition: must panic and leave the tree unchanged
-            c = rng.below(5)
+            c = rng.below(10)
             if c == 0:
                 ops.append({"op": "set", "i": n + rng.below(2), "v": pick_value(rng, kind, style)})
             elif c == 1:
@@ -620,13 +888,26 @@ def gen_history(rng, tier, weights, max_ops):
                 ops.append({"op": "ask", "l": l, "r": rng.below(l)})
             elif c == 3:
                 ops.append({"op": "mod", "l": rng.below(n), "r": n, "m": pick_mod(rng, kind, style)})
+            elif c == 4 and n > 1:
+                l = rng.range(1, n - 1)          # modify with l > r (its own assert)
+                ops.append({"op": "mod", "l": l, "r": rng.below(l), "m": pick_mod(rng, kind, style)})
+            elif c == 5:
+                l = n + rng.range(1, 3)          # both l > r and out of range
+                o = {"l": l, "r": n + rng.below(l - n)}
+                ops.append(dict(o, op="ask") if rng.chance(1, 2) else dict(o, op="mod", m=pick_mod(rng, kind, style)))
+            elif c == 6:
+                ops.append({"op": "slice", "xs": []})      # from_slice(&[]): data[0]
+            elif c == 7:
+                ops.append({"op": "iter", "xs": []})       # from_iter(empty): assert n != 0
+            elif c == 8 and kind in IDEMPOTENT_KINDS:
+                ops.append({"op": "new", "n": 0, "v": pick_value(rng, kind, style), "raw": 1})
             else:
                 ops.append({"op": "new", "n": 0, "v": pick_value(rng, kind, style)})
             continue
         w = rng.below(total)
         if w < wset:
             i = pick_pos(rng, n, nodes)
-            v = pick_item(rng, kind, style, tagged)
+            v = item()
             ops.append({"op": "set", "i": i, "v": v})
             plain.set(i, v)
         elif w < wset + wmod:
@@ -640,10 +921,21 @@ def gen_history(rng, tier, weights, max_ops):
         else:
             pos = pick_pos(rng, n, nodes)
             if rng.chance(1, 2):
-                ops.append({"op": "lb", "l": pos, "p": pick_pred(rng, kind, plain, pos, n - 1, False)})
+                o = {"op": "lb", "l": pos, "p": pick_pred(rng, kind, plain, pos, n - 1, False)}
             else:
-                ops.append({"op": "lbr", "r": pos, "p": pick_pred(rng, kind, plain, 0, pos, True)})
-    return {"kind": kind, "ops": ops}
+                o = {"op": "lbr", "r": pos, "p": pick_pred(rng, kind, plain, 0, pos, True)}
+            if rng.chance(1, ppanic):
+                # the predicate panics on its k-th call first; what follows must not notice
+                o["panic"] = rng.choice([1, 1, 2, 3, 4, 6])
+                ops.append(o)
+                l, r = pick_range(rng, n, nodes)
+                ops.append(rng.choice([{"op": "ask", "l": l, "r": r}, {"op": "ask", "l": 0, "r": n - 1}, {"op": "dbg"}]))
+            else:
+                ops.append(o)
+    c = {"kind": kind, "ops": ops}
+    if exe:
+        c["exe"] = exe
+    return c
 
 
 def pick_small_n(rng, tier):
@@ -742,7 +1034,8 @@ def gen_flip(rng, tier, wbound):
 def gen_tagged(rng, tier, wbound):
     """Construction from items that carry a pending lazy tag of their own (fill value of new, first element of a slice,
     elements of an iterator, set), then queries over single elements and ranges, debug(), searches, modifications."""
-    kind = rng.choice(["minadd", "maxadd", "sumadd", "comb2", "comb3", "minadd", "maxadd", "sumadd", "flip"])
+    kind = rng.choice(["minadd", "maxadd", "sumadd", "comb2", "comb3", "minadd", "maxadd", "sumadd", "flip",
+                       "minaddkey", "combflip"])
     style = "nonneg" if rng.chance(1, 2) else "any"
     plain = Plain(kind)
     ops = []
@@ -794,13 +1087,132 @@ def gen_tagged(rng, tier, wbound):
             v = pick_item(rng, kind, style, 80)
             ops.append({"op": "set", "i": i, "v": v})
             plain.set(i, v)
-        elif q < 19:
+        elif q < 19 and plain.a is not None:
             construct(list(plain.a))        # like a tree rebuilt from the items another tree returned after modifications
         else:
             construct()
     # always end on something observable
     if ops[-1]["op"] not in ("ask", "dbg", "lb", "lbr"):
         ops.append({"op": "ask", "l": 0, "r": n - 1} if rng.chance(1, 2) else {"op": "dbg"})
+    return {"kind": kind, "ops": ops}
+
+
+def gen_ties(rng, tier, wbound):
+    """Min / Max / MinAdd / MaxAdd over Keyed and Min / Max over f64: 2-3 distinct keys, so the two children of almost
+    every inner node tie; the id (position at construction, a fresh number for every set; for f64 the sign of the zero)
+    shows which operand each merge / update kept.  Point assignments, queries over node ranges and ranges straddling a
+    node's middle, searches (wbound in 10 of the observations), debug() (with the executor's fold self-check), and for the
+    Add kinds range adds of +-1 that create and destroy ties."""
+    kind = rng.choice(["minkey", "maxkey", "minaddkey", "maxaddkey", "minkey", "maxkey", "minf", "maxf"])
+    lazy = kind in ("minaddkey", "maxaddkey")
+    n = rng.range(2, 17) if rng.chance(3, 4) else rng.choice([2, 3, 4, 5, 8, 9, 16, 17, 31, 32, 33])
+    keys = [rng.range(-2, 2)]
+    keys.append(keys[0] + rng.choice([1, 1, 2]))
+    if rng.chance(1, 2):
+        keys.append(keys[0] + 3)
+    fresh = [n]
+
+    def val(pos=None):
+        if kind in F64_KINDS:
+            k = rng.choice([0, 0, 0, 0, keys[0], 1])
+            return "%d/%d" % (k, rng.below(2) if k == 0 else 0)
+        if pos is None:
+            pos = fresh[0]
+            fresh[0] += 1
+        return "%d/%d" % (rng.choice(keys + keys[:1]), pos)
+
+    plain = Plain(kind)
+    c = rng.below(4)
+    if c == 0:
+        v = val(0)
+        ops = [{"op": "new", "n": n, "v": v}]
+        if not lazy and rng.chance(1, 3):
+            ops[0]["raw"] = 1
+        plain.construct([v] * n)
+    else:
+        xs = [val(i) for i in range(n)]
+        ops = [{"op": "slice" if c < 3 else "iter", "xs": xs}]
+        plain.construct(xs)
+    nodes = nodes_of(n)
+    for _ in range(rng.range(3, 10 if tier == "quick" else 16)):
+        q = rng.below(10)
+        if q < 3:
+            i = pick_pos(rng, n, nodes)
+            v = val()
+            if lazy and rng.chance(1, 6):
+                v = [v, rng.choice([-1, 1, 2])]
+            ops.append({"op": "set", "i": i, "v": v})
+            plain.set(i, v)
+        elif q < 5 and lazy:
+            l, r = pick_range(rng, n, nodes)
+            m = rng.choice([-1, 1, -1, 1, 2, -2, 0])
+            ops.append({"op": "mod", "l": l, "r": r, "m": m})
+            plain.mod(l, r, m)
+        else:
+            k = rng.below(10)
+            if k < wbound:
+                pos = pick_pos(rng, n, nodes)
+                if rng.chance(1, 2):
+                    ops.append({"op": "lb", "l": pos, "p": pick_pred(rng, kind, plain, pos, n - 1, False)})
+                else:
+                    ops.append({"op": "lbr", "r": pos, "p": pick_pred(rng, kind, plain, 0, pos, True)})
+            elif k < 8:
+                l, r = pick_range(rng, n, nodes)
+                ops.append({"op": "ask", "l": l, "r": r})
+            else:
+                ops.append({"op": "dbg"})
+    if ops[-1]["op"] not in ("ask", "dbg", "lb", "lbr"):
+        ops.append({"op": "ask", "l": 0, "r": n - 1} if rng.chance(1, 2) else {"op": "dbg"})
+    return {"kind": kind, "ops": ops}
+
+
+BIG_N = [63, 64, 65, 127, 128, 129, 255, 256, 257, 1000, 1024, 1025, 4097]
+BIG_KINDS = ["min", "sum", "minadd", "maxadd", "sumadd", "comb3", "affine", "flip", "minkey", "maxaddkey", "combunit"]
+
+
+def gen_big(rng, tier, n=None, kind=None):
+    """Large trees (depth 7-13, sizes around powers of two and 1000), short histories: full-range and node-aligned
+    modifications, queries at both ends and across the root split, searches from the ends; no debug()."""
+    n = n or rng.choice(BIG_N)
+    kind = kind or rng.choice(BIG_KINDS)
+    style = "nonneg" if rng.chance(1, 2) else "any"
+    plain = Plain(kind)
+    c = rng.below(3)
+    if c == 0:
+        v = pick_item(rng, kind, style, 30)
+        ops = [{"op": "new", "n": n, "v": v}]
+        plain.construct([v] * n)
+    else:
+        xs = [pick_item(rng, kind, style, 5) for _ in range(n)]
+        ops = [{"op": "slice" if c == 1 else "iter", "xs": xs}]
+        plain.construct(xs)
+    m = (n - 1) // 2
+    nodes = [(0, n - 1, m), (0, m, m // 2), (m + 1, n - 1, (m + n) // 2)]
+    for _ in range(rng.range(5, 10)):
+        q = rng.below(10)
+        if q < 2:
+            i = rng.choice([0, n - 1, m, m + 1, rng.below(n)])
+            v = pick_item(rng, kind, style, 20)
+            ops.append({"op": "set", "i": i, "v": v})
+            plain.set(i, v)
+        elif q < 5:
+            l, r = rng.choice([(0, n - 1), (0, m), (m + 1, n - 1), (1, n - 2), (m, m + 1), pick_range(rng, n, nodes)])
+            md = pick_mod(rng, kind, style)
+            ops.append({"op": "mod", "l": l, "r": r, "m": md})
+            plain.mod(l, r, md)
+        elif q < 8:
+            l, r = rng.choice([(0, n - 1), (0, 0), (n - 1, n - 1), (m, m + 1), (0, m), (m + 1, n - 1), (1, n - 2),
+                               pick_range(rng, n, nodes)])
+            ops.append({"op": "ask", "l": l, "r": r})
+        else:
+            # the specification lists every candidate range: from the very ends only on the smaller sizes
+            if rng.chance(1, 2):
+                pos = rng.choice([0, m, m + 1]) if n <= 300 else rng.choice([n - 1, n - 2, n - rng.range(2, 40)])
+                ops.append({"op": "lb", "l": pos, "p": pick_pred(rng, kind, plain, pos, n - 1, False)})
+            else:
+                pos = rng.choice([n - 1, m, m + 1]) if n <= 300 else rng.choice([0, 1, rng.range(1, 40)])
+                ops.append({"op": "lbr", "r": pos, "p": pick_pred(rng, kind, plain, 0, pos, True)})
+    ops.append({"op": "ask", "l": 0, "r": n - 1})
     return {"kind": kind, "ops": ops}
 
 
@@ -814,12 +1226,23 @@ def interleave(lists):
     return [t[3] for t in keyed]
 
 
+def big_cases(rng, tier):
+    if tier == "quick":
+        return [gen_big(rng, tier, 64, "minadd"), gen_big(rng, tier, 129, "comb3"), gen_big(rng, tier, 1000, "sumadd"),
+                gen_big(rng, tier, 257, "minkey")]
+    return [gen_big(rng, tier, BIG_N[i % len(BIG_N)]) for i in range(52)]
+
+
 def generate(rng, tier):
-    count, nflip, ntag = (1400, 120, 200) if tier == "quick" else (30000, 3000, 5000)
+    count, nflip, ntag, nnew, nties = (1400, 120, 200, 260, 130) if tier == "quick" else (30000, 3000, 5000, 9000, 4000)
     r1, r2, r3 = rng.fork("hist"), rng.fork("flip"), rng.fork("tagged")
+    r4, r5, r6 = rng.fork("newkinds"), rng.fork("ties"), rng.fork("big")
     return interleave([[gen_history(r1, tier, (2, 3, 3, 2), 60) for _ in range(count)],
                        [gen_flip(r2, tier, 4) for _ in range(nflip)],
-                       [gen_tagged(r3, tier, 3) for _ in range(ntag)]])
+                       [gen_tagged(r3, tier, 3) for _ in range(ntag)],
+                       [gen_history(r4, tier, (2, 3, 3, 2), 40, NEW_KINDS) for _ in range(nnew)],
+                       [gen_ties(r5, tier, 3) for _ in range(nties)],
+                       big_cases(r6, tier)])
 
 
 # ----------------------------------------------------------------------------- evidence helpers
@@ -878,7 +1301,8 @@ def size_of(c):
 def classify(c, obs):
     n = size_of(c)
     cls = "n=1" if n == 1 else ("n<=8" if n <= 8 else ("n<=17" if n <= 17 else "n>17"))
-    return "%s%s/%s%s" % (c["kind"], "+tag" if has_tagged(c) else "", cls, "/pow2" if n & (n - 1) == 0 else "")
+    cls = "n>=63" if n >= 63 else cls
+    return "%s%s/%s%s" % (c.get("exe", c["kind"]), "+tag" if has_tagged(c) else "", cls, "/pow2" if n & (n - 1) == 0 else "")
 
 
 def clamp_ops(kind, ops):
@@ -910,6 +1334,8 @@ def clamp_ops(kind, ops):
 def shrink(c):
     kind, ops = c["kind"], c["ops"]
     out = []
+    if c.get("exe"):
+        out.append({k_: v_ for k_, v_ in c.items() if k_ != "exe"})
     if len(ops) > 3:
         out.append(dict(c, ops=ops[:1 + (len(ops) - 1) // 2]))
         out.append(dict(c, ops=ops[:1] + ops[1 + (len(ops) - 1) // 2:]))
@@ -930,7 +1356,7 @@ def shrink(c):
     for i, o in enumerate(ops):
         if o["op"] in ("set", "new") and isinstance(o.get("v"), list):
             out.append(dict(c, ops=ops[:i] + [dict(o, v=o["v"][0])] + ops[i + 1:]))
-            if o["v"][0] not in (0, 1):
+            if o["v"][0] not in (0, 1) and kind not in KEYED_KINDS:
                 out.append(dict(c, ops=ops[:i] + [dict(o, v=[0, o["v"][1]])] + ops[i + 1:]))
         if o["op"] in ("slice", "iter"):
             xs = o["xs"]
@@ -942,15 +1368,19 @@ def shrink(c):
                 out.append(dict(c, ops=ops[:i] + [dict(o, xs=[val_of(v) for v in xs])] + ops[i + 1:]))
     # simpler values
     for i, o in enumerate(ops):
-        if o["op"] in ("set", "new") and kind not in ("concat",) and o.get("v") not in (0, 1):
+        if o["op"] in ("set", "new") and kind not in STR_KINDS + KEYED_KINDS and o.get("v") not in (0, 1):
             out.append(dict(c, ops=ops[:i] + [dict(o, v=0)] + ops[i + 1:]))
-        if o["op"] == "mod" and kind not in UNIT_MOD_KINDS + ("concat", "affine") and o["m"] not in (0, 1):
+        if o["op"] in ("lb", "lbr") and o.get("panic"):
+            out.append(dict(c, ops=ops[:i] + [{k_: v_ for k_, v_ in o.items() if k_ != "panic"}] + ops[i + 1:]))
+        if o["op"] == "new" and o.get("raw"):
+            out.append(dict(c, ops=ops[:i] + [{k_: v_ for k_, v_ in o.items() if k_ != "raw"}] + ops[i + 1:]))
+        if o["op"] == "mod" and kind not in UNIT_MOD_KINDS + ("concat", "combcat", "affine") and o["m"] not in (0, 1):
             out.append(dict(c, ops=ops[:i] + [dict(o, m=1)] + ops[i + 1:]))
     return out
 
 
 MANIFEST = {
-    "text": "Coq theorems (26 pinned, no axioms) about an executable Gallina transcription of rlib_segtree::Segtree (new / from_slice / "
+    "text": "Coq theorems (37 pinned, no axioms) about an executable Gallina transcription of rlib_segtree::Segtree (new / from_slice / "
             "from_iter, set, ask, modify, lower_bound, lower_bound_rev, debug), generic over a lawful-item interface (no "
             "commutativity of merges or modifiers): representation invariant (c01_rep_length/top/leaf_iff/push), c01_build_correct, "
             "c01_set_correct, c01_modify_correct (only positions l..r change, each by the modifier), c01_ask_correct / "
@@ -958,12 +1388,19 @@ MANIFEST = {
             "(every finite history, precondition violations included, matches the plain-array specification), lawfulness of Min, "
             "Max, Sum, MinAdd, MaxAdd, SumAdd over Z, of the Combinator of lawful items (hence every nesting), of a string-list "
             "concatenation item with Assign|Append, of an affine-tag item mod 998244353 and of a bit-flip item that is lazy "
-            "although its modifier type is the zero-sized () (c01_flip_lawful); c01_combinator_side_by_side; "
+            "although its modifier type is the zero-sized () (c01_flip_lawful); lawfulness of Min / Max / MinAdd / MaxAdd over "
+            "elements (key, id) compared by key only, where merge keeps the right operand on ties (c01_minkey_lawful ... "
+            "c01_maxaddkey_lawful, c01_key_tie_right; the same algebra for the two zeros of f64: c01_minf_lawful, c01_maxf_lawful), "
+            "of Sum over strings with concatenation (c01_sumcat_lawful) and of three more Combinator nestings (c01_combcat_lawful, "
+            "c01_combunit_lawful, c01_combflip_lawful); c01_combinator_side_by_side; "
             "c01_model_check_spec_check.  Every run ties the model to the code: the executor drives the real Segtree on generated "
-            "histories for 11 item types - including constructions from items that carry a lazy tag of their own (fill value of "
-            "new, first element of from_slice) and flips left pending on inner nodes - and Coq checks model = implementation "
+            "histories for 21 item types - including constructions from items that carry a lazy tag of their own (fill value of "
+            "new, first element of from_slice), flips left pending on inner nodes, element types with distinguishable ties and "
+            "non-commutative +, weighted SumAdd leaves, i64 extremes, new_raw, empty constructions, reversed ranges, trees of up "
+            "to 4097 elements, searches interrupted by a panicking predicate - and Coq checks model = implementation "
             "(all fields, lazy tags included) and implementation |= plain-array specification on every history.",
-    "level_note": "Trusted: Coq kernel + vm_compute; the Rust executor (which also defines the three user items) and the Python "
+    "level_note": "Trusted: Coq kernel + vm_compute; the Rust executor (which also defines the three user items and the element types "
+                  "Keyed and Cat, and runs the fold / push-order self-checks) and the Python "
                   "printer/parsers; i64 modelled as unbounded Z (generated values stay below 2^40); the model decides leaf-ness by "
                   "shape where the code tests vl == vr (proved equivalent under the invariant); lower_bound(l >= n) (unasserted "
                   "out-of-bounds panic in the crate) is outside the model; the correspondence is sampled, not exhaustive.",
